@@ -174,6 +174,7 @@ def run(ctx):
         else:
             r = ctx.tlc("PTContract", CFG, label=label, constants=consts, workers=1)
         seen = set()
+        prev = None
         for idx, case in enumerate(r.cases):
             hk = repr((case["plan"], case["ctl"]))
             if hk in seen:
@@ -196,13 +197,18 @@ def run(ctx):
                 for perm in itertools.permutations(range(len(case["edims"]))):
                     if list(perm) != sorted(perm):
                         vs.append({"order": list(perm), "rank3": bool(idx % 2)})
+            if prev is not None and idx % 4 == 0 and case["edims"] and prev["edims"] == case["edims"] \
+                    and prev["n"] == case["n"] and prev["d"] == case["d"]:
+                # the same process-tensor objects held other tensors before and were already used once
+                vs.append({"first_use": prev, "rank3": True})
+            prev = case
             for v in vs:
                 jobs.append({"case": case, "variant": v, "seed": ctx.seed})
     results = core.pmap(eng.run_case, jobs, chunksize=8)
     for job, mm in zip(jobs, results):
         c = job["case"]
-        cid = {"d": c["d"], "edims": c["edims"], "n": c["n"], "ctl": c["ctl"], "plan": c["plan"],
-               "variant": job["variant"]}
+        vshow = {k: (v if k != "first_use" else "other plan") for k, v in job["variant"].items()}
+        cid = {"d": c["d"], "edims": c["edims"], "n": c["n"], "ctl": c["ctl"], "plan": c["plan"], "variant": vshow}
         nontrivial = any(it[0] == "env" and it[3] != "I" for it in c["plan"]) or bool(c["ctl"])
         ctx.case(cid, nontrivial=nontrivial)
         for x in mm:
